@@ -1,4 +1,5 @@
 import PewProofs.Overlap
+import PewProofs.OverlapD
 
 /-! # C11 — property theorems (statements only depend on `PewModel.Overlap`) -/
 namespace Pew.Overlap
@@ -498,5 +499,533 @@ theorem old_mechanism_wrong :
     mechOld .sum (some 10) [exA, exB] [0, 0] = some 11 ∧ spec .sum (some 10) [exA, exB] [0, 0] = some 1 ∧
     mechOld .sum none [exA, exB] [2, 1] = some 0 ∧ spec .sum none [exA, exB] [2, 1] = none := by
   decide +kernel
+
+
+/-! ## images of several dtypes in one list, infinite pixel values (`overlapD`)
+
+`overlap_arrays` is the same code for every list of images: `float64`, `float32`, integer and boolean images in any
+order, pixel values NaN, ±∞ or finite.  The canvas has the dtype of the first image and casts what is written into it. -/
+
+/-- **one pixel, any dtypes, any values.**  On a canvas of dtype `cdt` the mechanism returns the demanded value
+(last / IEEE mean / IEEE sum of the non-NaN values the inputs place at the pixel, the fill where there is none) as a
+canvas of that dtype holds it, provided `hypD` holds at the pixel: nothing in replace mode; in mean / sum mode on a
+floating-point canvas that the IEEE sum of the contributions is not NaN, i.e. +∞ and −∞ do not meet there
+(`sumE_nan_iff`; `inf_cancel_order_dependent` shows the mechanism leaves the specification otherwise); in sum mode on an
+integer canvas that every contribution is a finite integer (the canvas truncates after every image), on a boolean canvas
+that none is negative; mean mode on such a canvas raises (`raisesD`). -/
+theorem pixel_specD (cdt : DT) (m : Mode) (fill : EV) (arrs : List ArrE) (p : Idx)
+    (hyp : hypD cdt m arrs p = true) :
+    mechD cdt m fill arrs p = specD cdt m fill arrs p := by
+  unfold mechD specD specE
+  rw [foldlD_point]
+  cases m with
+  | replace =>
+    simp only [finishD, initD, if_true]
+    rw [fold_replaceD]
+    cases hc : contribsE arrs p with
+    | nil => simp
+    | cons c cs => simp [List.getLast?_eq_getLast_of_ne_nil]
+  | sum =>
+    simp only [initD, if_neg (show Mode.sum ≠ Mode.replace by decide)]
+    cases cdt with
+    | i8 =>
+      simp only [hypD, List.all_eq_true] at hyp
+      have h0 : castC .i8 (EV.fin 0) = EV.fin 0 := castC_i8_int _ (by simp [EV.intVal])
+      rw [h0, fold_accumI .sum (by decide) arrs p _ 0 (by simp [EV.intVal]) hyp, EV.zero_add]
+      cases hc : contribsE arrs p with
+      | nil => simp [finishD]
+      | cons c cs =>
+        simp only [finishD, List.length_cons, Nat.zero_add, Nat.succ_ne_zero, if_false]
+        rw [castC_i8_int]
+        exact sumE_int _ (by rw [← hc]; exact hyp)
+    | b1 =>
+      simp only [hypD, List.all_eq_true] at hyp
+      have h0 : castC .b1 (EV.fin 0) = EV.fin (bool01 0) := by simp [castC, bool01]
+      rw [h0, fold_accumB .sum (by decide) arrs p 0 0 (le_refl _) hyp, EV.zero_add]
+      cases hc : contribsE arrs p with
+      | nil => simp [finishD]
+      | cons c cs => simp [finishD]
+    | f8 =>
+      simp only [hypD, Bool.not_eq_true', ← Bool.not_eq_true, EV.isNan_iff] at hyp
+      have hcc := castC_float .f8 (Or.inl rfl)
+      rw [hcc, fold_accumE .f8 hcc .sum (by decide) arrs p _ 0 (by simp) (by rw [EV.zero_add]; exact hyp), EV.zero_add]
+      cases hc : contribsE arrs p with
+      | nil => simp [finishD]
+      | cons c cs => simp [finishD, hcc]
+    | f4 =>
+      simp only [hypD, Bool.not_eq_true', ← Bool.not_eq_true, EV.isNan_iff] at hyp
+      have hcc := castC_float .f4 (Or.inr rfl)
+      rw [hcc, fold_accumE .f4 hcc .sum (by decide) arrs p _ 0 (by simp) (by rw [EV.zero_add]; exact hyp), EV.zero_add]
+      cases hc : contribsE arrs p with
+      | nil => simp [finishD]
+      | cons c cs => simp [finishD, hcc]
+  | mean =>
+    simp only [initD, if_neg (show Mode.mean ≠ Mode.replace by decide)]
+    have hfl : cdt = .f8 ∨ cdt = .f4 := by cases cdt <;> simp_all [hypD]
+    have hyp' : sumE (contribsE arrs p) ≠ EV.nan := by
+      rcases hfl with rfl | rfl <;>
+        simpa only [hypD, Bool.not_eq_true', ← Bool.not_eq_true, EV.isNan_iff] using hyp
+    have hcc := castC_float cdt hfl
+    rw [hcc, fold_accumE cdt hcc .mean (by decide) arrs p _ 0 (by simp) (by rw [EV.zero_add]; exact hyp'), EV.zero_add]
+    cases hc : contribsE arrs p with
+    | nil => simp [finishD]
+    | cons c cs =>
+      simp only [finishD, List.length_cons, Nat.zero_add, Nat.succ_ne_zero, if_false, hcc]
+      split
+      · rfl
+      · have : cs = [] := by
+          cases cs with
+          | nil => rfl
+          | cons _ _ => simp at *
+        subst this; simp [EV.divNat_one]
+
+/-- where is the IEEE sum of the contributions NaN: exactly where +∞ and −∞ are both contributed -/
+theorem sumE_nan_iff (l : List EV) (h : ∀ v ∈ l, v ≠ EV.nan) : sumE l = EV.nan ↔ EV.pinf ∈ l ∧ EV.ninf ∈ l := by
+  rw [sumE_eq l h]
+  by_cases h1 : EV.pinf ∈ l <;> by_cases h2 : EV.ninf ∈ l <;> simp [h1, h2]
+
+/-- **the whole result with dtypes**: if the hypothesis of `pixel_specD` holds at every pixel of the bounding box, the
+mechanism's result (exception class, or dtype, shape and pixels) is the specification's -/
+theorem overlapD_spec (m : Mode) (fill : EV) (ndim : Nat) (arrs : List ArrE)
+    (h : ∀ p ∈ allIdx ((newShape ndim ((normaliseE ndim arrs).map ArrE.bare)).map Int.toNat),
+          hypD (canvasOf arrs) m (normaliseE ndim arrs) p = true) :
+    overlapD false m fill ndim arrs = overlapD true m fill ndim arrs := by
+  simp only [overlapD]
+  cases hr : raisesD (canvasOf arrs) m fill with
+  | some e => rfl
+  | none =>
+    simp only [Bool.false_eq_true, if_false, if_true]
+    have : ∀ p ∈ allIdx ((newShape ndim ((normaliseE ndim arrs).map ArrE.bare)).map Int.toNat),
+        mechD (canvasOf arrs) m fill (normaliseE ndim arrs) p = specD (canvasOf arrs) m fill (normaliseE ndim arrs) p :=
+      fun p hp => pixel_specD _ _ _ _ _ (h p hp)
+    rw [List.map_congr_left this]
+
+/-- **a list whose first image is floating point and whose values are NaN or finite** (images of any dtypes after the
+first, in any order): no exception, the result has the first image's dtype and is, pixel for pixel, the result of the
+plain model `overlap` on the values — about which `overlap_spec`, `bbox_exact`, `overlap_translation_invariant`,
+`overlap_perm_invariant`, `overlap_replace_last_writer` and `tiling` speak.  No hypothesis on the values. -/
+theorem overlapD_embed (spc : Bool) (m : Mode) (fill : V) (ndim : Nat) (l : List (DT × Arr))
+    (hc : canvasOf (l.map (fun x => x.2.toE x.1)) = .f8 ∨ canvasOf (l.map (fun x => x.2.toE x.1)) = .f4) :
+    overlapD spc m (embed fill) ndim (l.map (fun x => x.2.toE x.1))
+      = .ok (canvasOf (l.map (fun x => x.2.toE x.1)), (overlap spc m fill ndim (l.map (·.2))).1,
+              (overlap spc m fill ndim (l.map (·.2))).2.map embed) := by
+  simp only [overlapD]
+  have hr : raisesD (canvasOf (l.map (fun x => x.2.toE x.1))) m (embed fill) = none := by
+    rcases hc with h | h <;> rw [h] <;> rfl
+  simp only [hr]
+  have hsh : newShape ndim ((normaliseE ndim (l.map (fun x => x.2.toE x.1))).map ArrE.bare)
+      = newShape ndim (normalise ndim (l.map (·.2))) := by
+    rw [normaliseE_bare, toE_map_bare, normalise_bare, newShape_bare]
+  simp only [hsh, overlap, List.map_map]
+  congr 3
+  apply List.map_congr_left
+  intro p _
+  simp only [Function.comp]
+  rw [normaliseE_toE]
+  have hp := pixel_specD (canvasOf (l.map (fun x => x.2.toE x.1))) m (embed fill)
+    ((normPairs ndim l).map (fun x => x.2.toE x.1)) p (hypD_toE _ hc m _ p)
+  have hs : specD (canvasOf (l.map (fun x => x.2.toE x.1))) m (embed fill)
+      ((normPairs ndim l).map (fun x => x.2.toE x.1)) p = embed (spec m fill (normalise ndim (l.map (·.2))) p) := by
+    unfold specD
+    rw [castC_float _ hc, specE_embed, normPairs_snd]
+  cases spc with
+  | true => simp only [if_true]; exact hs
+  | false =>
+    simp only [Bool.false_eq_true, if_false]
+    rw [hp, hs, pixel_spec]
+
+def shiftE (t : List Int) (a : ArrE) : ArrE := { a with off := List.zipWith (· + ·) a.off t }
+
+theorem normaliseE_shift (ndim : Nat) (arrs : List ArrE) (t : List Int) (hne : arrs ≠ [])
+    (hoff : ∀ a ∈ arrs, a.off.length = ndim) (ht : t.length = ndim) :
+    normaliseE ndim (arrs.map (shiftE t)) = normaliseE ndim arrs := by
+  have hb : (arrs.map (shiftE t)).map ArrE.bare = (arrs.map ArrE.bare).map (shift t) := by
+    simp [List.map_map, Function.comp_def, shiftE, shift, ArrE.bare]
+  have key := translation_invariant ndim (arrs.map ArrE.bare) t (by simpa using hne)
+    (by intro a ha; obtain ⟨b, hb', rfl⟩ := List.mem_map.mp ha; exact hoff b hb') ht
+  rw [← hb] at key
+  simp only [normalise, List.map_map] at key
+  rw [List.map_inj_left] at key
+  simp only [normaliseE, List.map_map]
+  apply List.map_congr_left
+  intro a ha
+  have := congrArg Arr.off (key a ha)
+  simp only [Function.comp, ArrE.bare, shiftE] at this ⊢
+  rw [this]
+
+theorem overlapD_translation_invariant (spc : Bool) (m : Mode) (fill : EV) (ndim : Nat) (arrs : List ArrE)
+    (t : List Int) (hne : arrs ≠ []) (hoff : ∀ a ∈ arrs, a.off.length = ndim) (ht : t.length = ndim) :
+    overlapD spc m fill ndim (arrs.map (shiftE t)) = overlapD spc m fill ndim arrs := by
+  have hc : canvasOf (arrs.map (shiftE t)) = canvasOf arrs := by
+    cases arrs with
+    | nil => rfl
+    | cons a l => rfl
+  simp only [overlapD, normaliseE_shift ndim arrs t hne hoff ht, hc]
+
+/-- **reordering** the inputs does not change what the property demands of a pixel (mean / sum; ±∞ included) -/
+theorem specE_perm (m : Mode) (hm : m ≠ .replace) (fill : EV) (a₁ a₂ : List ArrE) (hp : a₁.Perm a₂) (p : Idx) :
+    specE m fill a₁ p = specE m fill a₂ p := by
+  have hc := contribsE_perm a₁ a₂ hp p
+  have hs := sumE_perm _ _ hc
+  have hl := hc.length_eq
+  unfold specE
+  cases h1 : contribsE a₁ p with
+  | nil =>
+    have : contribsE a₂ p = [] := by rw [h1] at hc; exact hc.nil_eq.symm
+    rw [this]
+  | cons c cs =>
+    cases h2 : contribsE a₂ p with
+    | nil => rw [h1, h2] at hl; simp at hl
+    | cons d ds =>
+      rw [h1, h2] at hs hl
+      cases m with
+      | replace => exact absurd rfl hm
+      | mean => simp only; rw [hs, hl]
+      | sum => simp only; rw [hs]
+
+/-- reordering, whole result, specification and (where the hypothesis of `pixel_specD` holds) mechanism -/
+theorem overlapD_perm_invariant (m : Mode) (hm : m ≠ .replace) (fill : EV) (ndim : Nat) (a₁ a₂ : List ArrE)
+    (hp : a₁.Perm a₂) (hc : canvasOf a₁ = canvasOf a₂) :
+    overlapD true m fill ndim a₁ = overlapD true m fill ndim a₂ := by
+  have hn := normaliseE_perm ndim a₁ a₂ hp
+  have hsh : newShape ndim ((normaliseE ndim a₁).map ArrE.bare) = newShape ndim ((normaliseE ndim a₂).map ArrE.bare) :=
+    newShape_perm ndim _ _ (hn.map _)
+  simp only [overlapD, hc, hsh, if_true]
+  cases raisesD (canvasOf a₂) m fill with
+  | some e => rfl
+  | none =>
+    simp only
+    congr 3
+    apply List.map_congr_left
+    intro p _
+    unfold specD
+    rw [specE_perm m hm fill _ _ hn p]
+
+/-- the same for the mechanism, where the hypothesis of `pixel_specD` holds on the box -/
+theorem overlapD_mech_perm_invariant (m : Mode) (hm : m ≠ .replace) (fill : EV) (ndim : Nat) (a₁ a₂ : List ArrE)
+    (hp : a₁.Perm a₂) (hc : canvasOf a₁ = canvasOf a₂)
+    (h : ∀ p ∈ allIdx ((newShape ndim ((normaliseE ndim a₁).map ArrE.bare)).map Int.toNat),
+          hypD (canvasOf a₁) m (normaliseE ndim a₁) p = true) :
+    overlapD false m fill ndim a₁ = overlapD false m fill ndim a₂ := by
+  have hn := normaliseE_perm ndim a₁ a₂ hp
+  have hsh : newShape ndim ((normaliseE ndim a₁).map ArrE.bare) = newShape ndim ((normaliseE ndim a₂).map ArrE.bare) :=
+    newShape_perm ndim _ _ (hn.map _)
+  rw [overlapD_spec m fill ndim a₁ h, overlapD_spec m fill ndim a₂, overlapD_perm_invariant m hm fill ndim a₁ a₂ hp hc]
+  intro p hp'
+  rw [← hsh] at hp'
+  rw [← hc, ← hypD_perm _ m _ _ hn p]
+  exact h p hp'
+
+/-- one-pixel images holding `v` at the origin -/
+def exInf (v : EV) : ArrE := { off := [0], shape := [1], dt := .f8, get := fun _ => v }
+
+/-- **+∞ and −∞ on one pixel: the mechanism is not the IEEE sum and depends on the order.**  `np.nansum` turns the NaN
+that ∞ − ∞ left on the canvas back into 0 when the next image is added: `[∞, −∞, 5]` gives 5 (mean 5/3), `[∞, 5, −∞]`
+gives NaN; the IEEE sum of the three values is NaN in every order. -/
+theorem inf_cancel_order_dependent :
+    mechD .f8 .sum (.fin 0) [exInf .pinf, exInf .ninf, exInf (.fin 5)] [0] = .fin 5 ∧
+    mechD .f8 .sum (.fin 0) [exInf .pinf, exInf (.fin 5), exInf .ninf] [0] = .nan ∧
+    specE .sum (.fin 0) [exInf .pinf, exInf .ninf, exInf (.fin 5)] [0] = .nan ∧
+    mechD .f8 .mean (.fin 0) [exInf .pinf, exInf .ninf, exInf (.fin 5)] [0] = .fin (5 / 3) := by
+  decide +kernel
+
+/-- a boolean mask, a float image with a NaN and +∞, an integer image on one footprint -/
+def exM1 : ArrE := { off := [0], shape := [2], dt := .b1, get := fun i => if i = [0] then .fin 1 else .fin 0 }
+def exM2 : ArrE := { off := [0], shape := [2], dt := .f8, get := fun i => if i = [0] then .nan else .pinf }
+def exM3 : ArrE := { off := [1], shape := [2], dt := .i8, get := fun _ => .fin 3 }
+
+/-- non-vacuity of `pixel_specD` / `overlapD_spec`: the hypothesis holds at every pixel for the float-first order in sum
+mode (+∞ + 3 = +∞) and for the integer-first order without the float image; it fails for the integer canvas once the
+non-integer +∞ is added -/
+example : hypD .f8 .sum [exM2, exM1, exM3] [1] = true ∧ mechD .f8 .sum .nan [exM2, exM1, exM3] [1] = .pinf
+    ∧ mechD .f8 .sum .nan [exM2, exM1, exM3] [0] = .fin 1 ∧ mechD .f8 .sum .nan [exM2, exM1, exM3] [2] = .fin 3
+    ∧ hypD .i8 .sum [exM3, exM1] [1] = true ∧ mechD .i8 .sum (.fin 0) [exM3, exM1] [1] = .fin 3
+    ∧ hypD .i8 .sum [exM3, exM2] [1] = false
+    ∧ hypD .b1 .sum [exM1, exM3] [1] = true ∧ mechD .b1 .sum (.fin 0) [exM1, exM3] [1] = .fin 1 := by
+  decide +kernel
+
+/-- hypotheses of `overlapD_embed` / `overlapD_translation_invariant` / `overlapD_perm_invariant` on a mixed list -/
+example : canvasOf ([(DT.f4, exA), (DT.i8, exB)].map (fun x => x.2.toE x.1)) = .f4
+    ∧ [exM2, exM1, exM3] ≠ [] ∧ (∀ a ∈ [exM2, exM1, exM3], a.off.length = 1)
+    ∧ [exM2, exM1, exM3].Perm [exM2, exM3, exM1] ∧ canvasOf [exM2, exM1, exM3] = canvasOf [exM2, exM3, exM1] := by
+  refine ⟨rfl, by simp, by simp [exM1, exM2, exM3], List.Perm.cons _ (List.Perm.swap _ _ _), rfl⟩
+
+
+/-! ## histories: the result of one merge fed into the next (tiling) -/
+/-- **tiling, one pixel.**  Let `R` be an image that holds at `p` what the merge of `l₁` with fill NaN holds there
+(`spec m none l₁ p`; NaN or nothing where `l₁` contributes nothing).  Merging `R` followed by further images `l₂` gives at
+`p` what the one merge of `l₁ ++ l₂` gives — in replace and sum mode, for every fill.  (Not in mean mode: a mean of
+means is not the mean, see the example below.) -/
+theorem tiling_pixel (m : Mode) (hm : m ≠ .mean) (fill : V) (l₁ l₂ : List Arr) (R : Arr) (p : Idx)
+    (hR : (R.at p).join = spec m none l₁ p) :
+    mech m fill (R :: l₂) p = mech m fill (l₁ ++ l₂) p := by
+  rw [pixel_spec, pixel_spec]
+  have h2 : contribs (l₁ ++ l₂) p = contribs l₁ p ++ contribs l₂ p := by
+    unfold contribs; rw [List.filterMap_append]
+  unfold spec at hR ⊢
+  rw [contribs_cons, h2, hR]
+  cases h1 : contribs l₁ p with
+  | nil => simp
+  | cons c cs =>
+    cases m with
+    | mean => exact absurd rfl hm
+    | replace =>
+      simp only
+      cases hc2 : contribs l₂ p with
+      | nil => simp
+      | cons d ds => simp [List.getLast_append]
+    | sum =>
+      simp only
+      cases hc2 : contribs l₂ p with
+      | nil => simp
+      | cons d ds => simp [List.sum_append, add_assoc]
+
+/-- hypothesis of `tiling_pixel` met by a non-trivial input (the one-pixel image holding the sum 3 of `exA`, `exB` at
+(1,1)), and the reason mean mode is excluded: the mean of the mean 3/2 and 6 is not the mean of 1, 2, 6 -/
+example : (({ off := [1, 1], shape := [1, 1], get := fun _ => some 3 } : Arr).at [1, 1]).join = spec .sum none [exA, exB] [1, 1]
+    ∧ mech .mean none [({ off := [1, 1], shape := [1, 1], get := fun _ => some (3 / 2) } : Arr),
+                        { off := [1, 1], shape := [1, 1], get := fun _ => some 6 }] [1, 1] = some (15 / 4)
+    ∧ mech .mean none [exA, exB, { off := [1, 1], shape := [1, 1], get := fun _ => some 6 }] [1, 1] = some 3 := by
+  decide +kernel
+
+/-- the result of merging `l₁` with fill NaN, as an image: it sits at the per-axis minimum of the offsets of `l₁` -/
+def mergedImage (m : Mode) (ndim : Nat) (l₁ : List Arr) : Arr :=
+  { off := minOffset ndim l₁, shape := (newShape ndim (normalise ndim l₁)).map Int.toNat,
+    get := fun i => mech m none (normalise ndim l₁) i }
+
+theorem mergedImage_off_axis (m : Mode) (ndim : Nat) (l₁ : List Arr) (k : Nat) (hk : k < ndim) :
+    axis k (mergedImage m ndim l₁).off = minList (l₁.map (fun a => axis k a.off)) := axis_minOffset ndim l₁ k hk
+
+theorem mergedImage_shape_axis (m : Mode) (ndim : Nat) (l₁ : List Arr) (hne : l₁ ≠ [])
+    (hoff : ∀ a ∈ l₁, a.off.length = ndim) (k : Nat) (hk : k < ndim) :
+    (((mergedImage m ndim l₁).shape.getD k 0 : Nat) : Int)
+      = maxList (l₁.map fun a => axis k a.off + ((a.shape.getD k 0 : Nat) : Int)) - minList (l₁.map fun a => axis k a.off) := by
+  obtain ⟨h1, ⟨a, ha, ha0⟩, _, h4⟩ := bbox_exact ndim l₁ hne hoff k hk
+  have hnn : 0 ≤ axis k (newShape ndim (normalise ndim l₁)) := by
+    have := (h1 a ha).2
+    have : (0 : Int) ≤ ((a.shape.getD k 0 : Nat) : Int) := Int.natCast_nonneg _
+    omega
+  have hg : (mergedImage m ndim l₁).shape.getD k 0 = (axis k (newShape ndim (normalise ndim l₁))).toNat := by
+    simp only [mergedImage, axis, List.getD_eq_getElem?_getD, List.getElem?_map]
+    cases (newShape ndim (normalise ndim l₁))[k]? <;> rfl
+  rw [hg, Int.toNat_of_nonneg hnn, h4]
+
+theorem minOffset_tiling (m : Mode) (ndim : Nat) (l₁ l₂ : List Arr) (hne : l₁ ≠ []) :
+    minOffset ndim (mergedImage m ndim l₁ :: l₂) = minOffset ndim (l₁ ++ l₂) := by
+  unfold minOffset
+  apply List.map_congr_left
+  intro k hk
+  have hk' : k < ndim := List.mem_range.mp hk
+  simp only [List.map_cons, List.map_append]
+  rw [mergedImage_off_axis m ndim l₁ k hk']
+  exact minList_cons_min _ _ (by simpa using hne)
+
+theorem newShape_tiling (m : Mode) (ndim : Nat) (l₁ l₂ : List Arr) (hne : l₁ ≠ [])
+    (hoff : ∀ a ∈ l₁, a.off.length = ndim) :
+    newShape ndim (normalise ndim (mergedImage m ndim l₁ :: l₂)) = newShape ndim (normalise ndim (l₁ ++ l₂)) := by
+  have hM := minOffset_tiling m ndim l₁ l₂ hne
+  simp only [normalise, hM, List.map_cons, List.map_append, newShape]
+  apply List.map_congr_left
+  intro k hk
+  have hk' : k < ndim := List.mem_range.mp hk
+  simp only [List.map_cons, List.map_append, List.map_map]
+  have hMlen : (minOffset ndim (l₁ ++ l₂)).length = ndim := minOffset_length _ _
+  have hR : axis k (sub (mergedImage m ndim l₁).off (minOffset ndim (l₁ ++ l₂))) + (((mergedImage m ndim l₁).shape.getD k 0 : Nat) : Int)
+      = maxList (l₁.map ((fun (a : Arr) => axis k a.off + ((a.shape.getD k 0 : Nat) : Int)) ∘ fun a => { a with off := sub a.off (minOffset ndim (l₁ ++ l₂)) })) := by
+    rw [axis_sub _ _ _ (by simp [mergedImage, minOffset_length]; exact hk') (by omega),
+      mergedImage_off_axis m ndim l₁ k hk', mergedImage_shape_axis m ndim l₁ hne hoff k hk']
+    have : l₁.map ((fun (a : Arr) => axis k a.off + ((a.shape.getD k 0 : Nat) : Int)) ∘ fun a => { a with off := sub a.off (minOffset ndim (l₁ ++ l₂)) })
+        = (l₁.map fun a => axis k a.off + ((a.shape.getD k 0 : Nat) : Int)).map (· + (- axis k (minOffset ndim (l₁ ++ l₂)))) := by
+      rw [List.map_map]
+      apply List.map_congr_left
+      intro a ha
+      simp only [Function.comp]
+      rw [axis_sub _ _ _ (by have := hoff a ha; omega) (by omega)]
+      omega
+    rw [this, maxList_add _ _ (by simpa using hne)]
+    omega
+  rw [hR]
+  exact maxList_cons_max _ _ (by simpa using hne)
+
+/-- every image of `l₁` lies inside the merged image: where the merged image does not cover `p`, none of them does -/
+theorem outside_merged (m : Mode) (ndim : Nat) (l₁ : List Arr) (hne : l₁ ≠ []) (M p : List Int)
+    (hoff : ∀ a ∈ l₁, a.off.length = ndim) (hsh : ∀ a ∈ l₁, a.shape.length = ndim)
+    (hM : M.length = ndim) (hp : p.length = ndim)
+    (hout : ({ mergedImage m ndim l₁ with off := sub (mergedImage m ndim l₁).off M } : Arr).inside p = false) :
+    contribs (l₁.map fun a => { a with off := sub a.off M }) p = [] := by
+  have hRoff : (mergedImage m ndim l₁).off.length = ndim := minOffset_length _ _
+  have hRsh : (mergedImage m ndim l₁).shape.length = ndim := by simp [mergedImage, newShape_length]
+  unfold contribs
+  rw [List.filterMap_eq_nil_iff]
+  intro a' ha'
+  obtain ⟨a, ha, rfl⟩ := List.mem_map.mp ha'
+  have hain : ({ a with off := sub a.off M } : Arr).inside p = false := by
+    by_contra hcon
+    rw [Bool.not_eq_false] at hcon
+    apply Bool.false_ne_true
+    rw [← hout]
+    simp only [Arr.inside, Bool.and_eq_true, beq_iff_eq] at hcon ⊢
+    obtain ⟨_, hr⟩ := hcon
+    rw [inRange_iff] at hr ⊢
+    obtain ⟨_, hr⟩ := hr
+    have halen := hoff a ha
+    refine ⟨by simp [sub_length, hp, hRoff, hM], by simp [sub_length, hp, hRoff, hM, hRsh], ?_⟩
+    intro k hk
+    rw [hRsh] at hk
+    have hk1 := hr k (by rw [hsh a ha]; exact hk)
+    rw [axis_sub _ _ _ (by omega) (by simp [sub_length, halen, hM]; exact hk),
+      axis_sub _ _ _ (by omega) (by omega)] at hk1
+    rw [axis_sub _ _ _ (by omega) (by simp [sub_length, hRoff, hM]; exact hk),
+      axis_sub _ _ _ (by omega) (by omega), mergedImage_off_axis m ndim l₁ k hk,
+      mergedImage_shape_axis m ndim l₁ hne hoff k hk]
+    have h1 := minList_le (l₁.map fun a => axis k a.off) (axis k a.off) (List.mem_map.mpr ⟨a, ha, rfl⟩)
+    have h2 := le_maxList (l₁.map fun a => axis k a.off + ((a.shape.getD k 0 : Nat) : Int)) _ (List.mem_map.mpr ⟨a, ha, rfl⟩)
+    omega
+  simp [Arr.at, hain]
+
+/-- **tiling, the whole function.**  Merging `l₁` with fill NaN, handing the result in as the first image (at the
+per-axis minimum of the offsets of `l₁`) of a second merge with further images `l₂`, gives — shape and every pixel —
+the one merge of `l₁ ++ l₂`: replace and sum mode, any fill of the second merge.  Hypotheses: `l₁` is not empty, every
+offset has `ndim` entries and every image of `l₁` has `ndim` axes. -/
+theorem tiling (m : Mode) (hm : m ≠ .mean) (fill : V) (ndim : Nat) (l₁ l₂ : List Arr) (hne : l₁ ≠ [])
+    (hoff : ∀ a ∈ l₁ ++ l₂, a.off.length = ndim) (hsh : ∀ a ∈ l₁, a.shape.length = ndim) :
+    overlap false m fill ndim (mergedImage m ndim l₁ :: l₂) = overlap false m fill ndim (l₁ ++ l₂) := by
+  have hoff1 : ∀ a ∈ l₁, a.off.length = ndim := fun a ha => hoff a (List.mem_append_left _ ha)
+  have hsh' := newShape_tiling m ndim l₁ l₂ hne hoff1
+  have hM := minOffset_tiling m ndim l₁ l₂ hne
+  simp only [overlap, hsh', Bool.false_eq_true, if_false]
+  congr 1
+  apply List.map_congr_left
+  intro p hp
+  have hpl : p.length = ndim := by
+    have := allIdx_length _ p hp
+    simpa [newShape_length] using this
+  have hMl : (minOffset ndim (l₁ ++ l₂)).length = ndim := minOffset_length _ _
+  have hM1 : (minOffset ndim l₁).length = ndim := minOffset_length _ _
+  have hn1 : normalise ndim (mergedImage m ndim l₁ :: l₂)
+      = ({ mergedImage m ndim l₁ with off := sub (mergedImage m ndim l₁).off (minOffset ndim (l₁ ++ l₂)) } : Arr)
+        :: l₂.map (fun a => { a with off := sub a.off (minOffset ndim (l₁ ++ l₂)) }) := by
+    simp only [normalise, hM, List.map_cons]
+  have hn2 : normalise ndim (l₁ ++ l₂)
+      = l₁.map (fun a => { a with off := sub a.off (minOffset ndim (l₁ ++ l₂)) })
+        ++ l₂.map (fun a => { a with off := sub a.off (minOffset ndim (l₁ ++ l₂)) }) := by
+    simp only [normalise, List.map_append]
+  rw [hn1, hn2]
+  apply tiling_pixel m hm
+  by_cases hin : ({ mergedImage m ndim l₁ with off := sub (mergedImage m ndim l₁).off (minOffset ndim (l₁ ++ l₂)) } : Arr).inside p = true
+  · have hat : ({ mergedImage m ndim l₁ with off := sub (mergedImage m ndim l₁).off (minOffset ndim (l₁ ++ l₂)) } : Arr).at p
+        = some (mech m none (normalise ndim l₁) (sub p (sub (minOffset ndim l₁) (minOffset ndim (l₁ ++ l₂))))) := by
+      simp only [Arr.at, hin, if_true]
+      rfl
+    rw [hat, Option.join_some, pixel_spec]
+    unfold spec
+    have := contribs_reframe l₁ (minOffset ndim l₁) (minOffset ndim (l₁ ++ l₂)) p ndim hpl hoff1 hM1 hMl
+    simp only [normalise]
+    rw [this]
+  · rw [Bool.not_eq_true] at hin
+    have hat : ({ mergedImage m ndim l₁ with off := sub (mergedImage m ndim l₁).off (minOffset ndim (l₁ ++ l₂)) } : Arr).at p = none := by
+      simp [Arr.at, hin]
+    rw [hat]
+    unfold spec
+    rw [outside_merged m ndim l₁ hne _ p hoff1 hsh hMl hpl hin]
+    rfl
+
+/-- hypotheses of `tiling` on a non-trivial input: the merge of `exA`, `exB` fed into a merge with `exZ` -/
+example : [exA, exB] ≠ [] ∧ (∀ a ∈ [exA, exB] ++ [exZ], a.off.length = 2) ∧ (∀ a ∈ [exA, exB], a.shape.length = 2)
+    ∧ (mergedImage .sum 2 [exA, exB]).off = [0, 0] ∧ (mergedImage .sum 2 [exA, exB]).shape = [3, 3]
+    ∧ (mergedImage .sum 2 [exA, exB]).get [1, 1] = some 3 ∧ (mergedImage .sum 2 [exA, exB]).get [2, 1] = none := by
+  refine ⟨by simp, by simp [exA, exB, exZ], by simp [exA, exB], by decide +kernel, by decide +kernel, by decide +kernel, by decide +kernel⟩
+
+/-! ## structured variant: translation and reordering -/
+
+def shiftS (t : List Int) (a : SArr) : SArr := { a with off := List.zipWith (· + ·) a.off t }
+
+theorem field_shiftS (t : List Int) (a : SArr) (n : String) : (shiftS t a).field n = shift t (a.field n) := by
+  unfold SArr.field shiftS shift
+  cases a.fields.lookup n <;> rfl
+
+theorem mergedNames_shiftS (t : List Int) (arrs : List SArr) : mergedNames (arrs.map (shiftS t)) = mergedNames arrs := by
+  unfold mergedNames
+  rw [List.foldl_map]
+  rfl
+
+/-- **structured variant: a common translation of all offsets leaves every field of the result unchanged** -/
+theorem structured_translation_invariant (spc : Bool) (m : Mode) (fill : V) (ndim : Nat) (arrs : List SArr)
+    (t : List Int) (hne : arrs ≠ []) (hoff : ∀ a ∈ arrs, a.off.length = ndim) (ht : t.length = ndim) :
+    overlapStructured spc m fill ndim (arrs.map (shiftS t)) = overlapStructured spc m fill ndim arrs := by
+  unfold overlapStructured
+  rw [mergedNames_shiftS]
+  apply List.map_congr_left
+  intro n _
+  have : (arrs.map (shiftS t)).map (·.field n) = (arrs.map (·.field n)).map (shift t) := by
+    simp [List.map_map, Function.comp_def, field_shiftS]
+  rw [this, overlap_translation_invariant spc m fill ndim _ t (by simpa using hne) _ ht]
+  intro a ha
+  obtain ⟨b, hb, rfl⟩ := List.mem_map.mp ha
+  rw [field_off]; exact hoff b hb
+
+/-- **structured variant: reordering the inputs (mean / sum).**  The result has the same field names (in another
+order: the merged dtype lists them in order of first appearance) and every field holds the same image.
+Hypothesis: no input carries a field name twice. -/
+theorem structured_perm_invariant (m : Mode) (hm : m ≠ .replace) (fill : V) (ndim : Nat) (a₁ a₂ : List SArr)
+    (hp : a₁.Perm a₂) (hn : ∀ a ∈ a₁, (a.fields.map (·.1)).Nodup) :
+    (mergedNames a₁).Perm (mergedNames a₂) ∧
+    ∀ n, (overlapStructured false m fill ndim a₁).lookup n = (overlapStructured false m fill ndim a₂).lookup n := by
+  have hn2 : ∀ a ∈ a₂, (a.fields.map (·.1)).Nodup := fun a ha => hn a (hp.mem_iff.mpr ha)
+  have hmem : ∀ n, n ∈ mergedNames a₁ ↔ n ∈ mergedNames a₂ := by
+    intro n
+    rw [mergedNames_mem, mergedNames_mem]
+    exact ⟨fun ⟨a, ha, h⟩ => ⟨a, hp.mem_iff.mp ha, h⟩, fun ⟨a, ha, h⟩ => ⟨a, hp.mem_iff.mpr ha, h⟩⟩
+  refine ⟨(List.perm_ext_iff_of_nodup (mergedNames_nodup a₁ hn) (mergedNames_nodup a₂ hn2)).mpr hmem, ?_⟩
+  intro n
+  unfold overlapStructured
+  rw [lookup_map_self, lookup_map_self]
+  by_cases h : n ∈ mergedNames a₁
+  · rw [if_pos h, if_pos ((hmem n).mp h), overlap_perm_invariant m hm fill ndim _ _ (hp.map _)]
+  · rw [if_neg h, if_neg (fun h' => h ((hmem n).mpr h'))]
+
+def shiftDS (t : List Int) (a : DArr) : DArr := { a with off := List.zipWith (· + ·) a.off t }
+
+/-- the same with field dtypes (exception classes, casts and all) -/
+theorem structuredD_translation_invariant (spc : Bool) (m : Mode) (fill : V) (ndim : Nat) (arrs : List DArr)
+    (t : List Int) (hne : arrs ≠ []) (hoff : ∀ a ∈ arrs, a.off.length = ndim) (ht : t.length = ndim) :
+    overlapStructuredD spc m fill ndim (arrs.map (shiftDS t)) = overlapStructuredD spc m fill ndim arrs := by
+  have hd : mergedDescr (arrs.map (shiftDS t)) = mergedDescr arrs := by
+    unfold mergedDescr
+    rw [List.foldl_map]
+    rfl
+  have hc : ∀ n, canvasDT (arrs.map (shiftDS t)) n = canvasDT arrs n := by
+    intro n
+    cases arrs with
+    | nil => rfl
+    | cons a l => rfl
+  have hf : ∀ n, (arrs.map (shiftDS t)).map (fun a => a.toS.field n) = (arrs.map (fun a => a.toS.field n)).map (shift t) := by
+    intro n
+    simp only [List.map_map]
+    apply List.map_congr_left
+    intro a _
+    exact field_shiftS t a.toS n
+  have ho : ∀ n, overlap spc m fill ndim ((arrs.map (shiftDS t)).map (fun a => a.toS.field n))
+      = overlap spc m fill ndim (arrs.map (fun a => a.toS.field n)) := by
+    intro n
+    rw [hf, overlap_translation_invariant spc m fill ndim _ t (by simpa using hne) _ ht]
+    intro a ha
+    obtain ⟨b, hb, rfl⟩ := List.mem_map.mp ha
+    rw [field_off]; exact hoff b hb
+  unfold overlapStructuredD
+  simp only [hd, fieldOutcome, hc, ho]
+
+/-- three structured inputs whose field sets overlap pairwise, each lacking one name: hypotheses of
+`structured_translation_invariant` / `structured_perm_invariant`; the merged names come in order of first appearance,
+so two orders of the inputs list them differently -/
+def exS1 : SArr := ⟨[0], [2], [("A", fun _ => some 1), ("B", fun _ => none)]⟩
+def exS2 : SArr := ⟨[1], [2], [("C", fun _ => some 3), ("B", fun _ => some 2)]⟩
+def exS3 : SArr := ⟨[-1], [1], [("C", fun _ => some 5), ("A", fun _ => some 7)]⟩
+
+example : [exS1, exS2, exS3] ≠ [] ∧ (∀ a ∈ [exS1, exS2, exS3], a.off.length = 1)
+    ∧ (∀ a ∈ [exS1, exS2, exS3], (a.fields.map (·.1)).Nodup) ∧ [exS1, exS2, exS3].Perm [exS3, exS1, exS2]
+    ∧ mergedNames [exS1, exS2, exS3] = ["A", "B", "C"] ∧ mergedNames [exS3, exS1, exS2] = ["C", "A", "B"] := by
+  refine ⟨by simp, by simp [exS1, exS2, exS3], by simp [exS1, exS2, exS3], ?_, by decide, by decide⟩
+  exact (List.perm_append_comm (l₁ := [exS1, exS2]) (l₂ := [exS3]))
 
 end Pew.Overlap
